@@ -60,7 +60,7 @@ class SignEnv:
 
     def __init__(self, machine=None, atom_sign=None):
         self.m = machine
-        self.atom_sign = atom_sign or {}
+        self.atom_sign = atom_sign if atom_sign is not None else {}
         self.memo = {}
 
     def of(self, n):
@@ -129,9 +129,16 @@ class SignEnv:
             return "any"
         if k == "atom":
             s = self.atom_sign.get(n[1])
-            if s is not None:
-                return s
-            return self._from_order(n)
+            o = self._from_order(n)
+            if s is None:
+                return o
+            # combine the declared sign with the path's order facts (e.g. >= 0 and != 0)
+            if o in ("pos", "neg", "zero"):
+                return o
+            if s == "nonneg" and self.m is not None and n in self.m.order.idx and self.m.order.decide("Ne", n, F.ZERO) is True \
+                    and self.m.order.nan_status(n) is False:
+                return "pos"
+            return s
         if k == "neg":
             return NEG[self.of(n[1])]
         if k == "add":
@@ -194,8 +201,29 @@ class SignEnv:
                 r = "any"
         else:
             r = "any"
+        if r in ("nonneg", "nonpos") and self.m is not None and n in self.m.order.idx:
+            o = self._from_order(n)
+            if o in ("pos", "neg", "zero"):
+                return o
+            if self.m.order.decide("Ne", n, F.ZERO) is True and (self.m.order.nan_status(n) is False or self.m.cfg.finite):
+                return "pos" if r == "nonneg" else "neg"
         if r == "any":
             o = self._from_order(n)
             if o != "any":
                 return o
+            if self.m is not None and k in ("add", "sub", "i2f"):
+                # interval view (e.g. f(n+1) - 1.0 with n >= 1)
+                try:
+                    from machine import float_bounds
+                    lo, hi = float_bounds(self.m, n)
+                    if lo > 0:
+                        return "pos"
+                    if hi < 0:
+                        return "neg"
+                    if lo >= 0:
+                        return "nonneg"
+                    if hi <= 0:
+                        return "nonpos"
+                except Exception:
+                    pass
         return r
